@@ -4,6 +4,7 @@
 -/
 import Vita.C02.Lemmas
 import Vita.C02.CseLemmas
+import Vita.C02.ReachLemmas
 namespace Vita.C02
 
 /-! ## symbol_set::roulette -/
@@ -47,6 +48,13 @@ theorem wf_last_terminals {ss : SymSet} {x : Ind} (h : WF ss x) {c : Nat} (hc : 
 theorem wf_walk_inside {ss : SymSet} {x : Ind} (h : WF ss x) :
     (∀ l ∈ exons x, Inside x l) ∧ ∀ l0, Inside x l0 → ∀ l ∈ reach x l0, Inside x l :=
   ⟨reach_inside h h.best, fun _ h0 => reach_inside h h0⟩
+
+/-- The row scan used by the model (`reach`, `exons`) visits exactly the loci reached from the
+    start by following argument loci – the set any traversal of the active code visits (the
+    `std::set` based iterator, `random_locus`, the recursive tree crossover, the interpreter). -/
+theorem reach_closure {ss : SymSet} {x : Ind} (h : WF ss x) {l0 : Locus} (h0 : Inside x l0)
+    (l : Locus) : l ∈ reach x l0 ↔ Reaches x l0 l :=
+  reach_iff_reaches h h0 l
 
 theorem wfb_iff (ss : SymSet) (x : Ind) : WFb ss x = true ↔ WF ss x := by
   unfold WFb
